@@ -157,8 +157,13 @@ def check(case, ctx):
         if r is not None:
             r = np.asarray(r, dtype=float).ravel()
             want = np.diag(sla.expm(W))
-            if r.shape != (n,) or not np.allclose(r, want, rtol=1e-8, atol=1e-10):
-                v = int(np.argmax(np.abs(r - want))) if r.shape == (n,) else -1
+            # conditioning: node i's value is sum_k v_ik^2 exp(lambda_k); an eigenvector component known to eps (relative to the unit
+            # norm) contributes an absolute error of about eps |v_ik| exp(lambda_k) -- far above 1e-8 of the value for nodes that
+            # carry almost no weight of the leading eigenvectors of a wide spectrum. Eight times that first-order bound is allowed.
+            lam_, V_ = np.linalg.eigh(W)
+            slack = 8 * np.finfo(float).eps * (np.abs(V_) * np.exp(lam_)[None, :]).sum(axis=1)
+            if r.shape != (n,) or not np.all(np.abs(r - want) <= 1e-10 + 1e-8 * np.abs(want) + slack):
+                v = int(np.argmax(np.abs(r - want) - (1e-10 + 1e-8 * np.abs(want) + slack))) if r.shape == (n,) else -1
                 fails.append(Failure("subgraph_centrality:not-diagonal-of-expm",
                                      "node %d: returned %r, expm(A)[v,v] = %r" % (v, r[v] if v >= 0 else r, want[v] if v >= 0 else want), case,
                                      {"repeated": repeated}))
@@ -305,6 +310,42 @@ def cases(draw, measures):
             else:
                 c["prior"] = None
         return c
+    if m == "pagerank-large":
+        # beyond 1000 nodes (the docstring's own size remark), slowly mixing: a ring lattice with a hub, damping close to 1
+        n = draw(st.integers(1001, 1100))
+        A = gen.ring_adj(n).astype(float)
+        if draw(st.booleans()):
+            idx = np.arange(n)
+            A[idx, (idx + 2) % n] = 1
+            A[(idx + 2) % n, idx] = 1
+        hub = draw(st.integers(0, n - 1))
+        for v in draw(st.lists(st.integers(0, n - 1), min_size=3, max_size=12)):
+            if v != hub:
+                A[hub, v] = A[v, hub] = 1
+        if draw(st.booleans()):        # some one-way streets
+            for v in draw(st.lists(st.integers(0, n - 1), min_size=1, max_size=20)):
+                A[v, (v + 1) % n] = 0
+        return {"measure": "pagerank", "W": A, "family": "ring-lattice+hub-n>1000", "d": draw(st.sampled_from([0.99, 0.97, 0.85])), "prior": None,
+                "order": draw(st.sampled_from(gen.ORDERS))}
+    if m == "subgraph" and draw(st.integers(0, 2)) == 0:
+        # a wide spectrum (a heavy or large dense core) next to nodes that carry no weight of the leading eigenvector
+        # (another component, an isolated node, the far end of a tail)
+        core = draw(st.integers(5, 10))
+        w = draw(st.sampled_from([9.0, 4.0, 1.0, 6.5]))
+        if w == 1.0:
+            core = draw(st.integers(38, 44))
+        other = draw(st.sampled_from(["edge", "isolated", "tail", "triangle"]))
+        B = {"edge": gen.complete_adj(2), "isolated": np.zeros((1, 1), dtype=bool), "tail": gen.path_adj(draw(st.integers(6, 9))),
+             "triangle": gen.complete_adj(3)}[other]
+        W = gen.block_diag(gen.complete_adj(core), B).astype(float)
+        W[:core, :core] *= w
+        W[core:, core:] *= draw(st.sampled_from([0.5, 1.0]))
+        if other == "tail":
+            W[core - 1, core] = W[core, core - 1] = 1.0
+        n = len(W)
+        if draw(st.booleans()):
+            W = gen.apply_perm(W, draw(gen.perm(n)))
+        return {"measure": m, "W": W, "family": "wide-spectrum+" + other, "order": draw(st.sampled_from(gen.ORDERS))}
     if m == "findwalks" and draw(st.integers(0, 3)) == 0:
         # large dense graphs: walk counts beyond 2^53 / 2^63 (float rounding is fine, integer wrap-around is not)
         n = draw(st.integers(16, 22))
@@ -322,4 +363,5 @@ def units(tier):
     return [
         Unit("random-walk", check, strategy=lambda: cases(["mfpt", "diffusion", "pagerank", "pagerank"]), examples=(4000, 100000), shards=(8, 16)),
         Unit("spectral", check, strategy=lambda: cases(["subgraph", "eigenvector", "findwalks"]), examples=(5000, 125000), shards=(8, 16)),
+        Unit("pagerank-n>1000", check, strategy=lambda: cases(["pagerank-large"]), examples=(24, 160), shards=(8, 16)),
     ]
